@@ -71,8 +71,8 @@ Proof. intros H. unfold norm_gather. replace ((0 <=? i) && (i <? Z.of_nat n))%Z 
   symmetry. apply andb_true_iff. split; [apply Z.leb_le|apply Z.ltb_lt]; lia. Qed.
 Lemma unchecked_in n i : (0 <= i < Z.of_nat n)%Z -> unchecked n i = Ok (Z.to_nat i).
 Proof. intros H. unfold unchecked. now rewrite Z.mod_small. Qed.
-Lemma ix_list_in b n inner idx :
-  idx <> [] -> Forall (fun i => (0 <= i < Z.of_nat n)%Z) idx -> ix_list b n inner idx = Ok (map Z.to_nat idx).
+Lemma ix_list_in b eo n inner idx :
+  idx <> [] -> Forall (fun i => (0 <= i < Z.of_nat n)%Z) idx -> ix_list b eo n inner idx = Ok (map Z.to_nat idx).
 Proof. intros Hne H.
   assert (Hw : rmapM (norm_wrap n) idx = Ok (map Z.to_nat idx))
     by (apply rmapM_ok; eapply Forall_impl; [|exact H]; intros i Hi; now apply norm_wrap_in).
